@@ -77,6 +77,20 @@ def build(rng, tier):
                 inst = f"{pid}_{j}_{t}"
                 ops = [f"eng perturb {1 + r2.below(10 ** 9)}", f"eng new {inst} {pid} par {t}"] + engcheck.load_ops(inst, inp) + [f"eng runpp {inst} {t}", f"eng dump {inst}", f"eng iters {inst}", "eng perturb 0"]
                 cases.append(engcheck.Case(pid, inst, ops, {"inp": inp, "kind": "doubling-walks" + ("+irp" if irp else ""), "threads": t}))
+    # forced shape "sparse keyed index in a three-clause rule": rules with three clauses are skipped when `is_empty` of a body index answers true; a keyed concurrent
+    # index holding ONE or TWO keys (whatever shard they hash into) is not empty
+    sp3 = {"rels": [{"arity": 2}, {"arity": 2}, {"arity": 2}, {"arity": 2}],
+           "rules": [{"heads": [(3, [("var", 0), ("var", 3)])], "body": [("cl", 0, [("v", 0), ("v", 1)], []), ("cl", 1, [("v", 1), ("v", 2)], []), ("cl", 2, [("v", 2), ("v", 3)], [])]}]}
+    progs["sp3"] = sp3
+    mods.append(("sp3", eng.rs_module("sp3", sp3, macro="ascent_par")))
+    for j in range(16 if tier == "quick" else 60):
+        r2 = rng.fork(f"sp3{j}")
+        k1, k2 = r2.range(0, 400), r2.range(0, 400)
+        inp = {0: [(x, k1) for x in range(r2.range(1, 3))], 1: [(k1, k2)], 2: [(k2, z) for z in range(r2.range(1, 3))]}
+        t = r2.choice([4, 8, 16])
+        inst = f"sp3_{j}"
+        ops = [f"eng new {inst} sp3 par {t}"] + engcheck.load_ops(inst, inp) + [f"eng runpp {inst} {t}", f"eng dump {inst}", f"eng iters {inst}"]
+        cases.append(engcheck.Case("sp3", inst, ops, {"inp": inp, "kind": "sparse-keyed-index", "threads": t}))
     # forced shape "hot keys": a few lattice keys, each improved by hundreds of DIFFERENT incomparable contributions in ONE iteration (set union): every worker's join must be
     # an atomic read-modify-write of the row (a join computed on a private copy and written back loses the neighbours' contributions)
     hot = {"rels": [{"arity": 2}, {"arity": 2, "lat": "set"}],
